@@ -29,6 +29,8 @@ const (
 	ErrSame   = "errsame"    // fails with an error value shared by every errsame job (a package-level sentinel)
 	ErrWrap   = "errwrap"    // fails with its own error that wraps the shared sentinel
 	OwnGoexit = "own-goexit" // cancels its own (per-job) context, then kills its goroutine
+	// CancelGate cancels the shared context and then keeps running until the caller releases it after Wait returned
+	CancelGate = "cancel-gate"
 )
 
 // JobSpec describes one job. Deps index earlier jobs (duplicates allowed).
@@ -116,7 +118,7 @@ func (s *Scenario) usesCancel() bool {
 		return true
 	}
 	for _, j := range s.Jobs {
-		if j.Out == CancelOK || j.Out == CancelErr {
+		if j.Out == CancelOK || j.Out == CancelErr || j.Out == CancelGate {
 			return true
 		}
 	}
@@ -267,6 +269,9 @@ func (s *Scenario) round(r *Run, round int) {
 					return r.Errs[i]
 				case Gate:
 					gate.Recv()
+				case CancelGate:
+					cancel()
+					gate.Recv()
 				case Barrier:
 					barrier.Done()
 					barrier.Wait()
@@ -371,7 +376,7 @@ func Check(r *Run, ex *vs.Exec) []Finding {
 				hasBarrier = true
 			}
 		}
-		hasGate := countOut(s, Gate) > 0
+		hasGate := countOut(s, Gate)+countOut(s, CancelGate) > 0
 		if hasGate && !s.usesCancel() {
 			// A gated job only returns after Wait did: C05's premise (every user
 			// function eventually returns) does not hold, nothing to report.
@@ -558,7 +563,7 @@ func Check(r *Run, ex *vs.Exec) []Finding {
 					add("C08", "round %d: internal sentinel %q leaked into the returned error", rd, e)
 				}
 			}
-			if cancelEv == nil {
+			if cancelEv == nil && !anyOwnCtx(s) {
 				for i := range s.Jobs {
 					anc := map[int]bool{}
 					ancestors(s, i, anc)
